@@ -6,12 +6,29 @@ points.  Rational values are kept exactly ("p/q"); everything else is evaluated 
 Auxiliary symbols (_prob4, _old2, …) are renamed (prefix, rank by numeric suffix) — the property
 allows exactly this renaming.
 """
+import contextlib
+import sys
 import hashlib
 import re
 from fractions import Fraction
 
 NS = [0, 1, 2, 3, 4, 5, 6, 7, 12]
 AUX = re.compile(r"^_([A-Za-z_]*?)(\d+)$")
+
+
+@contextlib.contextmanager
+def unlimited_ints():
+    """the harness converts exact values of any size to text; Polar's own code keeps running under whatever limit the
+    interpreter has (the default, unless Polar itself changes it), so the limit is lifted only around harness code"""
+    if not hasattr(sys, "get_int_max_str_digits"):
+        yield
+        return
+    old = sys.get_int_max_str_digits()
+    sys.set_int_max_str_digits(0)
+    try:
+        yield
+    finally:
+        sys.set_int_max_str_digits(old)
 
 
 def generic_value(name, point):
@@ -59,6 +76,11 @@ def _value_str(v):
 
 
 def canon_closed_form(expr, pieces=None):
+    with unlimited_ints():
+        return _canon_closed_form(expr, pieces)
+
+
+def _canon_closed_form(expr, pieces=None):
     """expr: sympy expression in n (possibly Piecewise) — or, with pieces, the list of printed
     special cases followed by the general formula (CLI output).  Returns {"vals": [[...],[...]], "free": [...]}"""
     import sympy
@@ -222,6 +244,11 @@ def compare_closed_forms(ca, cb, tol=1e-25):
 
 
 def canon_typedefs(program):
+    with unlimited_ints():
+        return _canon_typedefs(program)
+
+
+def _canon_typedefs(program):
     """Finite types as value sets: {"vars": {original variable: values}, "aux": sorted [(prefix, values)]}.
     Auxiliary variables are compared as a multiset of (prefix, value set): their numbering is exactly
     what the property allows to differ."""
